@@ -7,6 +7,8 @@ ops
          the state is kept for the following "mortar" ops
   {"op":"mortar","i":fracture,"nlow":cells of the lower-dimensional grid}
       -> `createInterface` on face_cells[i] of the kept state
+  {"op":"nodes","nN":..,"nC":..,"face_nodes":[[nodes] per unsplit face],"split":[nodes of the lower-dimensional neighbours]}
+      -> `duplicateNodes` on the kept state (cell_faces after the face split; duplicated faces copy the nodes of their original)
   {"op":"line","nx":..,"ny":..,"axis":0|1|2,"s":node,"e":node} -> `findNodesOnLine`
   {"op":"plane","n":[nx,ny,nz],"xs":[[x nodes],[y nodes],[z nodes]],"o":normal direction,"p":plane coordinate,"tol":..,
    "P":[[u,v] x 4 snapped corners in the in-plane coordinates]} -> {"faces": planeFaces, "nodes": planeNodes}
@@ -86,6 +88,22 @@ def step (st : St) (j : Json) : R (St × Json) := do
       match createInterface nlow (s.fc i) s.fcCols with
       | .error e => pure (st, err (errName e))
       | .ok m => pure (st, obj [("sides", ofNat m.sides), ("mcells", ofList (fun (p : Nat × Nat) => ofNats [p.1, p.2]) m.cells)])
+  | "nodes" =>
+    let nN ← fNat j "nN"
+    let nC ← fNat j "nC"
+    let fn ← fNatss j "face_nodes"
+    let split ← fNats j "split"
+    match st with
+    | none => pure (st, err "no-state")
+    | some s =>
+      let fnIn := fn.toArray
+      let fnA := (fn ++ s.pairs.map (fun p => fnIn.getD p.1 [])).toArray
+      let cfA := ((List.range nC).map (fun c => (List.range s.nF).filter (fun g => (s.inc g).any (fun a => a.cell == c)))).toArray
+      let g : NodeGrid := { nN := nN, nC := nC, faceNodes := fun f => fnA.getD f [], cellFaces := fun c => cfA.getD c [] }
+      match g.duplicateNodes split with
+      | none => pure (st, err "no-convergence")
+      | some r => pure (st, obj [("nN", ofNat r.nN), ("face_nodes", ofList (fun f => ofNats (r.faceNodes f)) (List.range s.nF)),
+                                 ("new2old", ofNats r.newToOld)])
   | "line" =>
     let nx ← fNat j "nx"
     let ny ← fNat j "ny"
